@@ -37,7 +37,8 @@ MonInit ==
     late |-> {},         \* conns that received bytes after the proxy's read in the iteration being observed
     dirty |-> {},        \* conns holding bytes the proxy has not read yet (it reads data before EOF)
     recvd |-> {}, lost |-> {}, noticed |-> {}, expired |-> {}, tmo |-> {}, rd |-> {},
-    connLost |-> FALSE, viol |-> {}, dead |-> FALSE ]
+    connLost |-> FALSE, viol |-> {}, dead |-> FALSE,
+    role |-> "", base |-> [nlog |-> <<>>, got |-> <<>>, cst |-> <<>>] ]   \* C08: outcome of the unsegmented twin
 
 Sent(m, c) == At(m.sent, c, <<>>)
 Got(m, c)  == At(m.got, c, <<>>)
@@ -45,6 +46,18 @@ Cst(m, c)  == At(m.cst, c, "open")
 
 Frags(m, c, i) == {<<c, i, s>> : s \in SeqRange(Sent(m, c)[i].slots)}
 HasUnowned(r)  == \E s \in SeqRange(r.slots) : s \in UnownedSlots
+
+\* key occurrences: position p (0-based) of request r carries the key string of position KeyJ(r, p)
+\* (itself, unless the request repeats an earlier key there)
+KeyJ(r, p) == IF (p + 1) \in DOMAIN r.dups /\ r.dups[p + 1] >= 0 THEN r.dups[p + 1] ELSE p
+\* positions of request r whose key lives in slot s, ascending
+PosOf(r, s) == LET S == {j \in DOMAIN r.slots : r.slots[j] = s}
+                   RECURSIVE Asc(_, _)
+                   Asc(T, acc) == IF T = {} THEN acc
+                                  ELSE LET x == CHOOSE y \in T : \A z \in T : y <= z IN Asc(T \ {x}, Append(acc, x - 1))
+               IN Asc(S, <<>>)
+\* the key tokens the fragment for slot s must carry, in order
+ExpJs(r, s) == [x \in DOMAIN PosOf(r, s) |-> KeyJ(r, PosOf(r, s)[x])]
 
 -----------------------------------------------------------------------------
 \* the reply a request must get, from what the nodes answered for its own fragments
@@ -82,8 +95,9 @@ MergeRep(m, c, i, r) ==
              [j \in 1..Len(r.slots) |->
                 LET s == r.slots[j]
                     a == m.ans[<<c, i, s>>]
-                    v == At(a.byj, j - 1, "missing")
-                IN IF v = "val" THEN [c |-> c, i |-> i, j |-> j - 1, s |-> s, n |-> a.n, v |-> "val"]
+                    loc == Cardinality({x \in 1..j : r.slots[x] = s})
+                    v == IF loc \in DOMAIN a.vals THEN a.vals[loc] ELSE "missing"
+                IN IF v = "val" THEN [c |-> c, i |-> i, j |-> KeyJ(r, j - 1), s |-> s, n |-> a.n, v |-> "val"]
                    ELSE IF v = "nil" THEN NilTok
                    ELSE [c |-> c, i |-> i, j |-> j - 1, s |-> s, n |-> a.n, v |-> v]],
              Len(r.slots), "")
@@ -176,9 +190,15 @@ RecvViol(m, e, f) ==
       v13 == IF needAsking /\ ~prevAsking THEN {<<"C13", e.c, e.i, "ask-without-asking">>}
              ELSE IF prevAsking /\ ~needAsking THEN {<<"C13", e.c, e.i, "stray-asking">>}
              ELSE {}
-      badkeys == {k \in DOMAIN e.toks : e.toks[k].c # e.c \/ e.toks[k].i # e.i \/ e.toks[k].s # f[3]}
-      v06 == IF badkeys # {} THEN {<<"C06", e.c, e.i, "foreign-key-in-fragment">>} ELSE {}
-      r   == IF e.c \in DOMAIN m.sent /\ e.i <= Len(Sent(m, e.c)) THEN Sent(m, e.c)[e.i] ELSE [k |-> "?", slots |-> <<>>]
+      r   == IF e.c \in DOMAIN m.sent /\ e.i <= Len(Sent(m, e.c)) THEN Sent(m, e.c)[e.i] ELSE [k |-> "?", slots |-> <<>>, dups |-> <<>>]
+      known == r.k # "?" /\ r.k \notin LocalKinds /\ f[3] \in SeqRange(r.slots)
+      v06 == IF ~known THEN {}
+             ELSE (IF [x \in DOMAIN e.toks |-> e.toks[x].j] # ExpJs(r, f[3])
+                      \/ \E x \in DOMAIN e.toks : e.toks[x].c # e.c \/ e.toks[x].i # e.i \/ e.toks[x].s # f[3]
+                   THEN {<<"C06", e.c, e.i, "fragment-keys-differ">>} ELSE {})
+                  \cup (IF e.k # r.k THEN {<<"C06", e.c, e.i, "fragment-kind-differs">>} ELSE {})
+                  \cup (IF \E x \in DOMAIN e.toks : e.toks[x].v = "badval" THEN {<<"C06", e.c, e.i, "mset-value-unpaired">>} ELSE {})
+                  \cup (IF resend /\ f \notin DOMAIN m.redir THEN {<<"C06", e.c, e.i, "duplicate-fragment">>} ELSE {})
       v17 == IF r.k \in LocalKinds \/ (r.k # "?" /\ HasUnowned(r) /\ Len(r.slots) = 1)
              THEN {<<"C17", e.c, e.i, "unservable-request-forwarded">>} ELSE {}
   IN v10 \cup v13 \cup v06 \cup v17
@@ -187,9 +207,16 @@ RecvViol(m, e, f) ==
 AddViol(m, vs) == [m EXCEPT !.viol = @ \cup vs]
 
 MonApply(m, e) ==
-  CASE e.ev = "begin" -> MonInit
+  CASE e.ev = "begin" -> [MonInit EXCEPT !.base = m.base, !.role = e.k]
+    [] e.ev = "end" ->
+         \* C08: a segmented run must have the same outcome as its unsegmented twin (the trace just before it)
+         LET sum == [nlog |-> [n \in DOMAIN m.nlog |-> {<<m.nlog[n][x].k, m.nlog[n][x].c, m.nlog[n][x].i, m.nlog[n][x].s>> : x \in DOMAIN m.nlog[n]}],
+                     got |-> m.got, cst |-> m.cst]
+         IN IF m.role = "base" THEN [m EXCEPT !.base = sum]
+            ELSE IF m.role = "seg" /\ sum # m.base THEN AddViol(m, {<<"C08", "", 0, "segmentation-changes-outcome">>})
+            ELSE m
     [] e.ev = "send" ->
-         [m EXCEPT !.sent = Put(@, e.c, Append(Sent(m, e.c), [k |-> e.k, slots |-> e.slots]))]
+         [m EXCEPT !.sent = Put(@, e.c, Append(Sent(m, e.c), [k |-> e.k, slots |-> e.slots, dups |-> e.dups]))]
     [] e.ev = "got" ->
          LET i == Len(Got(m, e.c)) + 1 IN
          [m EXCEPT !.got  = Put(@, e.c, Append(Got(m, e.c), e.rep)),
@@ -212,8 +239,7 @@ MonApply(m, e) ==
             THEN [m1 EXCEPT !.redir = Put(@, f, Append(At(m.redir, f, <<>>), [kind |-> e.kind, to |-> e.to, from |-> e.n])),
                             !.dirty = @ \cup {e.conn}]
             ELSE [m1 EXCEPT !.ans = Put(@, f, [n |-> e.n, kind |-> e.kind, cls |-> e.cls, num |-> e.num,
-                                               byj |-> [j \in {e.toks[k].j : k \in DOMAIN e.toks} |->
-                                                          (CHOOSE t \in SeqRange(e.toks) : t.j = j).v]]),
+                                               vals |-> [k \in DOMAIN e.toks |-> e.toks[k].v]]),
                             !.unread = Put(@, e.conn, At(m.unread, e.conn, {}) \cup {f}),
                             !.dirty = @ \cup {e.conn}]
     [] e.ev = "answerauto" /\ e.kind = "late" -> [m EXCEPT !.late = @ \cup {e.conn}]
@@ -265,7 +291,12 @@ MonApply(m, e) ==
     [] e.ev = "quiesce" ->
          LET m1 == [m EXCEPT !.rd = @ \cup UNION {m.unread[cn] : cn \in DOMAIN m.unread},
                              !.nread = [c \in DOMAIN m.sent |-> Len(m.sent[c])]]
-         IN AddViol(m1, WaitViol(m1, TRUE))
+             missing == UNION { { <<"C06", c, i, "fragment-missing">> :
+                                    i \in {x \in DOMAIN Got(m1, c) : x <= Len(Sent(m1, c)) /\ ~IsErr(Got(m1, c)[x])
+                                                                     /\ Sent(m1, c)[x].k \notin LocalKinds /\ ~HasUnowned(Sent(m1, c)[x])
+                                                                     /\ \E f \in Frags(m1, c, x) : f \notin m1.recvd} }
+                                : c \in DOMAIN m1.got }
+         IN AddViol(m1, WaitViol(m1, TRUE) \cup missing)
     [] e.ev = "dead" -> [m EXCEPT !.dead = TRUE, !.viol = @ \cup {<<"DEAD", "", 0, "proxy-died">>}]
     [] OTHER -> m
 =============================================================================
